@@ -4,6 +4,11 @@
    after the call) must be a behaviour of Directory, every observation equal to what the model
    state dictates.  Several runs per trace, separated by Reset events.
 
+   Independence (C15): every event also carries the observation of every OTHER live directory
+   object (Ev.others, in the order of `parked`) and of every retained root node (Ev.nodes): each
+   must still show its own entries and root CID whatever was done to the focused object.  Fork /
+   Focus events create a second (third) live object from the root node / redirect the calls.
+
    Strict = TRUE  (C16): the representation (basic/HAMT), the live per-directory settings and the
                    root CID class must follow the switching actions of Directory (ideal outcome,
                    or an enabled deviation under its guard).
@@ -27,9 +32,25 @@ TInit == /\ l = 1 /\ devAll = {}
                    width |-> 8, stat |-> "none", cb |-> "v0"]
          /\ entries = <<>> /\ mode = "basic" /\ set = [thr |-> 0, maxLinks |-> 0, est |-> "links"]
          /\ bk = [est |-> 0, tl |-> 0, sc |-> 0] /\ trie = EmptyTrie /\ err = "" /\ dev = {}
+         /\ parked = <<>> /\ nodes = <<>>
 
 Pairs(e) == {<<n, e[n]>> : n \in Keys(e)}
 Listing(s, e) == ToSet(s) = Pairs(e) /\ Len(s) = Count(e)      \* exactly the entries, no duplicates
+
+\* the other live objects and the retained nodes, re-observed after this step
+ObservedObjs ==
+  /\ Len(Ev.others) = Len(parked')
+  /\ \A k \in DOMAIN parked' :
+        /\ Ev.others[k].mode = parked'[k].mode
+        /\ Listing(Ev.others[k].links, parked'[k].entries) /\ Ev.others[k].find = parked'[k].entries
+        /\ Ev.others[k].cid = "same"                    \* the root CID it had when it was parked
+  /\ Len(Ev.nodes) = Len(nodes')
+  /\ \A i \in DOMAIN nodes' :
+        /\ Listing(Ev.nodes[i].links, nodes'[i].e)
+        /\ Ev.nodes[i].cid = (IF nodes'[i].e = nodes'[i].e0 THEN "same" ELSE "diff")   \* vs. the CID at hand-out
+\* the frame of a call: the logged listing of a node handed out by the focused object itself decides
+\* whether it is read as the live root or as a snapshot; nothing else may move (CallFrame)
+TFrame == CallFrame({i \in Own : i <= Len(Ev.nodes) /\ ToSet(Ev.nodes[i].links) = Pairs(entries')})
 
 \* what the harness observed right after the call, against the primed model state
 Observed ==
@@ -45,25 +66,28 @@ Observed ==
                /\ (mode' = "basic" /\ set'.est # "disabled") => Ev.bk.est = EstSizeBy(set'.est, entries')
                /\ (dev' = {} /\ Ev.cidDyn # "na") => Ev.cidDyn = "same"
   /\ devAll' = devAll \cup dev'
+  /\ ObservedObjs
 
 TReset == /\ IsEvent("Reset")
           /\ ResetTo([len |-> Ev.w.len, h |-> Ev.w.h, cidLen |-> Ev.w.cidLen, tsize |-> Ev.w.tsize], Ev.cfg)
           /\ mode' = Ev.mode /\ bk' = Ev.bk /\ devAll' = devAll
 TAdd    == /\ IsEvent("AddChild")
            /\ IF Strict THEN AddCore(Ev.n, Ev.t) ELSE MapAdd(Ev.n, Ev.t, Ev.mode)
-           /\ Observed
+           /\ TFrame /\ Observed
 TRemove == /\ IsEvent("RemoveChild")
            /\ IF Strict THEN RemoveCore(Ev.n) ELSE MapRemove(Ev.n, Ev.mode)
-           /\ Observed
-TReload == IsEvent("Reload") /\ ReloadCore /\ Observed
+           /\ TFrame /\ Observed
+TReload == IsEvent("Reload") /\ ReloadCore /\ ReloadFrame /\ Observed
+TFork   == IsEvent("Fork") /\ ReloadCore /\ ForkFrame(Ev.via) /\ Observed
+TFocus  == IsEvent("Focus") /\ FocusCore(Ev.k) /\ Observed
 
-TNext == TReset \/ TAdd \/ TRemove \/ TReload
+TNext == TReset \/ TAdd \/ TRemove \/ TReload \/ TFork \/ TFocus
 TSpec == TInit /\ [][TNext]_tvars
 
 TraceConstraint == TLCSet(1, IF l - 1 > TLCGet(1) THEN l - 1 ELSE TLCGet(1))
 TracePost == PrintT(<<"TRACE_HWM", TLCGet(1)>>)
 DevReport == l <= Len(Trace) \/ \A d \in devAll : PrintT(<<"DEV_USED", d>>)
 \* the module invariants, evaluated on every state of the run (state before the first Reset excluded)
-TInv == l > 1 => /\ TypeOK /\ Canonical /\ Resolvable /\ BasicLimit
+TInv == l > 1 => /\ TypeOK /\ Canonical /\ Resolvable /\ BasicLimit /\ ObjsOK
                  /\ Strict => ShardedIffRule /\ SettingsSurvive /\ CidFunctionOfEntries
 =============================================================================
